@@ -211,37 +211,30 @@ def _before_return(P):
            using=['INV', 'covered-implies-short', 'short-implies-covered'])
     P.have('false-stays-false', z3.ForAll([j], z3.Implies(z3.And(0 <= j, j < n, z3.Not(b0(j))), z3.Not(cur(j)))),
            using=['INV'])
-    # the definition of the spec function, at this array / length / count
+    # the definition of the spec function (skolemised form), at this array / length / count
+    from .specs import minrun_skolem
     B0 = E.mat(_frozen_entry(E, b))
+    lo, hi, window, D1, D2 = minrun_skolem(B0, n, m)
     i = z3.Int('qi')
-    defn = z3.ForAll([i], MR(B0, n, m, i) == minrun_def(B0, n, m, i), patterns=[MR(B0, n, m, i)])
-    E.assumptions_quant(defn)
-    P.register('DEF', [defn])
+    E.assumptions_quant(z3.ForAll([i], D1(i), patterns=[MR(B0, n, m, i)]))
+    E.assumptions_quant(z3.ForAll([i, a, c], D2(i, a, c)))
     MAT = lambda v: z3.Select(B0, v) == z3.If(z3.And(v >= 0, v < n), b0(v), False)      # instances of the mat axiom
-    P.forall('mat', [k], z3.BoolVal(True), MAT(k), by=[], patterns=[z3.Select(B0, k)]) if False else None
     P.register('MATAX', [E.st.ghost['mat_axioms'][B0.get_id()]])
     P.have('mat-inst', z3.ForAll([k], MAT(k), patterns=[z3.Select(B0, k)]), using=['MATAX'])
     P.schema('mat-inst', lambda v: MAT(v))
     # the own run is a window of True
     P.forall('run-is-true-window', [j, k], z3.And(0 <= j, j < n, b0(j), ON(RUN(j)) <= k, k < OFF(RUN(j))), z3.Select(B0, k),
              by=[P.inst('run-of-true', j), P.inst('covering-run-is-own-run', RUN(j), k), P.inst('mat-inst', k)])
+    kk = z3.Int('mr_k')
+    P.forall('run-window', [j], z3.And(0 <= j, j < n, b0(j)), window(ON(RUN(j)), OFF(RUN(j))),
+             by=[z3.ForAll([kk], P.inst('run-is-true-window', j, kk))])
     # long run => its own interval is the witness window
-    jj = z3.Int(fresh_name('jj'))
-    kk = z3.Int(fresh_name('kk'))
-    window_fact = z3.ForAll([kk], P.inst('run-is-true-window', jj, kk))
-    P.E.oblige_focused('proof', [z3.And(0 <= jj, jj < n, b0(jj), z3.Not(SHORT(RUN(jj)))), window_fact,
-                                 P.inst('run-of-true', jj), P.inst('short-def', RUN(jj)),
-                                 P.inst('cnt-after-g', 2 * RUN(jj) + 1), P.inst('cnt-after-g', 2 * RUN(jj)), TE,
-                                 P.inst('mat-inst', jj)],
-                       minrun_def(B0, n, m, jj), P.node,
-                       name='%s/proof@before_return:long-run-window' % E.fn_short, assume=False)
-    long_kept = z3.ForAll([j], z3.Implies(z3.And(0 <= j, j < n, b0(j), z3.Not(SHORT(RUN(j)))), minrun_def(B0, n, m, j)))
-    E.assumptions_quant(long_kept)          # generalisation of the step just proved for an arbitrary jj
-    facts['long-run-kept'] = long_kept
+    P.forall('long-run-kept', [j], z3.And(0 <= j, j < n, b0(j), z3.Not(SHORT(RUN(j)))), MR(B0, n, m, j),
+             by=[D2(j, ON(RUN(j)), OFF(RUN(j))), P.inst('run-window', j), P.inst('run-of-true', j), P.inst('short-def', RUN(j)),
+                 P.inst('cnt-after-g', 2 * RUN(j) + 1), P.inst('cnt-after-g', 2 * RUN(j)), TE, P.inst('mat-inst', j)])
     # any True window around j lies inside j's run, so a window of length >= m makes the run long
     win = lambda v: z3.Implies(z3.And(a <= v, v < c), z3.Select(B0, v))
-    prem = z3.And(0 <= a, a <= j, j < c, c <= n, 0 <= j, j < n, b0(j),
-                  z3.ForAll([k], z3.Implies(z3.And(a <= k, k < c), z3.Select(B0, k))))
+    prem = z3.And(0 <= a, a <= j, j < c, c <= n, 0 <= j, j < n, b0(j), window(a, c))
     P.forall('window-inside-run', [j, a, c], prem, z3.And(ON(RUN(j)) <= a, c <= OFF(RUN(j))),
              by=[P.inst('run-of-true', j), P.inst('run-left-end', 2 * RUN(j)), P.inst('run-right-end', 2 * RUN(j) + 1),
                  P.inst('mat-inst', ON(RUN(j)) - 1), P.inst('mat-inst', OFF(RUN(j))),
@@ -249,11 +242,13 @@ def _before_return(P):
     prem2 = z3.And(prem, c - a >= m)
     P.forall('window-makes-long', [j, a, c], prem2, z3.Not(SHORT(RUN(j))),
              by=[P.inst('window-inside-run', j, a, c), P.inst('run-of-true', j), P.inst('short-def', RUN(j))])
-    P.have('kept-only-if-long', z3.ForAll([j], z3.Implies(z3.And(0 <= j, j < n, minrun_def(B0, n, m, j)),
-                                                          z3.And(b0(j), z3.Not(SHORT(RUN(j)))))),
-           using=['window-makes-long', 'mat-inst'])
-    P.have('post', z3.ForAll([j], z3.Implies(z3.And(0 <= j, j < n), cur(j) == MR(B0, n, m, j))),
-           using=['cleared-iff-short', 'false-stays-false', 'long-run-kept', 'kept-only-if-long', 'DEF'])
+    P.forall('kept-only-if-long', [j], z3.And(0 <= j, j < n, MR(B0, n, m, j)), z3.And(b0(j), z3.Not(SHORT(RUN(j)))),
+             by=[D1(j), P.inst('window-makes-long', j, lo(j), hi(j)), P.inst('mat-inst', j)])
+    P.schema('cleared-iff-short', lambda v: z3.Implies(z3.And(0 <= v, v < n, b0(v)), cur(v) == z3.Not(SHORT(RUN(v)))))
+    P.schema('false-stays-false', lambda v: z3.Implies(z3.And(0 <= v, v < n, z3.Not(b0(v))), z3.Not(cur(v))))
+    P.forall('post', [j], z3.And(0 <= j, j < n), cur(j) == MR(B0, n, m, j),
+             by=[P.inst('cleared-iff-short', j), P.inst('false-stays-false', j), P.inst('long-run-kept', j),
+                 P.inst('kept-only-if-long', j)])
 
 
 from vf.values import fresh_name  # noqa: E402
@@ -296,4 +291,106 @@ contract(
         "forall(j, 0 <= j < len(is_burst), is_burst[j] == (old(is_burst)[j] and "
         "not exists(p, 0 <= p and p < q and _zip0[p] <= j and j < _zip1[p])))",
     ])},
+)
+
+
+# ------------------------------------------------------------------------------------------------ recompute_edge(s) (C16)
+from vf.values import XR, REAL  # noqa: E402
+EDGE_COLS = {'volt_rise': XR, 'volt_decay': XR, 'period': INT, 'amp_fraction': XR, 'amp_consistency': XR,
+             'period_consistency': XR, 'monotonicity': XR, 'is_burst': BOOL}
+
+
+def _edge_result(E, env):
+    f = env['df_features']
+    f.cols = dict(f.cols)
+    for c in ('amp_consistency', 'period_consistency'):
+        f.cols[c] = E.new_arr(f.n, XR, kind='series', base='edge.' + c)
+    return f
+
+
+def _re_cases():
+    out = []
+    for centre, marker in (('peak', 'sample_peak'), ('trough', 'sample_trough')):
+        pk = 'True' if centre == 'peak' else 'False'
+        for d in ('both', 'next', 'last'):
+            cols = dict(EDGE_COLS)
+            cols[marker] = INT
+            interior = "1 <= cyc_idx and cyc_idx < len(df_features) - 1"
+            ens = ["result is df_features", "len(result) == len(old(df_features))",
+                   # C16: the row gets the one-sided consistency values computed on its three-row window ...
+                   "implies(%s, same(result['amp_consistency'][cyc_idx], amp_consistency_spec(old(df_features)['volt_rise'], "
+                   "old(df_features)['volt_decay'], %s, '%s', cyc_idx)))" % (interior, pk, d),
+                   "implies(%s, same(result['period_consistency'][cyc_idx], period_consistency_spec("
+                   "old(df_features)['period'], '%s', cyc_idx)))" % (interior, d),
+                   "implies(not (%s), isnan(result['amp_consistency'][cyc_idx]) and isnan(result['period_consistency'][cyc_idx]))" % interior,
+                   # ... and nothing else changes
+                   "forall(i, 0 <= i < len(result), i != cyc_idx, same(result['amp_consistency'][i], old(df_features)['amp_consistency'][i]) "
+                   "and same(result['period_consistency'][i], old(df_features)['period_consistency'][i]))"]
+            for c in cols:
+                if c not in ('amp_consistency', 'period_consistency'):
+                    ens.append("forall(i, 0 <= i < len(result), same(result['%s'][i], old(df_features)['%s'][i]))" % (c, c))
+            ens.append("ncols(result) == %d" % len(cols))
+            out.append(dict(label='%s-centred,%s' % (centre, d),
+                            params={'df_features': ('frame', cols, 2), 'cyc_idx': INT, 'direction': ('const', d)},
+                            ensures=ens))
+    cols = dict(EDGE_COLS)
+    cols['sample_peak'] = INT
+    out.append(dict(label='other-direction', params={'df_features': ('frame', cols, 2), 'cyc_idx': INT, 'direction': 'str'},
+                    requires=["direction != 'both' and direction != 'next' and direction != 'last'"],
+                    raises={'ValueError': 'True'}))
+    return out
+
+
+contract(
+    'bycycle.burst.utils.recompute_edge',
+    cases=_re_cases(),
+    requires=["len(df_features) >= 2", "0 <= cyc_idx and cyc_idx < len(df_features)",
+              "forall(j, 0 <= j < len(df_features), df_features['period'][j] > 0)"],
+    modifies=['df_features'],
+    result=_edge_result,
+)
+
+
+def _res_frame_like(E, env):
+    from vf.values import Frame
+    f = env['df_features']
+    cols = {c: E.new_arr(f.n, a.ty, kind='series', base='rce.' + c) for c, a in f.cols.items()}
+    return Frame(E.new_ident(), f.n, cols)
+
+
+def _rces_cases():
+    out = []
+    TK = dict({t: 'real' for t in THRS}, min_n_cycles=INT)
+    for centre, marker in (('peak', 'sample_peak'), ('trough', 'sample_trough')):
+        cols = dict(EDGE_COLS)
+        cols[marker] = INT
+        thr = {t: "(value(threshold_kwargs, '%s') if present(threshold_kwargs, '%s') else %s)" % (t, t, dflt)
+               for t, dflt in zip(THRS, ('0.', '.5', '.5', '.8'))}
+        M = "(value(threshold_kwargs, 'min_n_cycles') if present(threshold_kwargs, 'min_n_cycles') else 3)"
+        q = ("arrdef(j, len(result), 0 < j < len(result) - 1 and " +
+             " and ".join("result['%s'][j] > %s" % (f, thr[t]) for f, t in zip(FEATS, THRS)) + ")")
+        keep = [c for c in cols if c not in ('amp_consistency', 'period_consistency', 'is_burst')]
+        inv = ["len(df_features_edges) == len(df_features)"] + \
+              ["forall(i, 0 <= i < len(df_features), same(df_features_edges['%s'][i], df_features['%s'][i]))" % (c, c) for c in keep]
+        out.append(dict(
+            label='%s-centred' % centre,
+            params={'df_features': ('frame', cols, 3), 'threshold_kwargs': ('dict', TK), 'burst_method': ('const', 'cycles'),
+                    'burst_kwargs': 'none'},
+            raises={'ValueError': " or ".join("%s < 0 or %s > 1" % (thr[t], thr[t]) for t in THRS) + " or %s < 0" % M},
+            ensures=["result is not df_features", "len(result) == len(df_features)", "ncols(result) == %d" % len(cols)] +
+                    # every column other than the two consistencies and the labels is the input's
+                    ["forall(i, 0 <= i < len(result), same(result['%s'][i], df_features['%s'][i]))" % (c, c) for c in keep] +
+                    # the new labels are the threshold-and-run rule applied to the edited table
+                    ["forall(i, 0 <= i < len(result), result['is_burst'][i] == minrun(%s, %s, i))" % (q, M)],
+            loops={1: dict(index='k', invariant=inv)}))
+    return out
+
+
+contract(
+    'bycycle.burst.utils.recompute_edges',
+    cases=_rces_cases(),
+    requires=["len(df_features) >= 3", "forall(j, 0 <= j < len(df_features), df_features['period'][j] > 0)"],
+    # C16 / C15: the input table and the thresholds dictionary are untouched
+    modifies=[],
+    result=_res_frame_like,
 )
